@@ -341,7 +341,8 @@ Definition C06_full_failure_reaches_caller_fanout : Prop :=
     failure_reaches_caller (fan_net sp true (Some (ft, fp, c)) None) (fan_init sp true (Some (ft, fp, c)) None)
                            (fan_main sp) (fn_N sp) c.
 
-(* the consumer raises c while handling chunk k *)
+(* the consumer raises c while handling chunk k (PROVED above without savers: C06_consumer_exception_chain;
+   with savers it is this Definition, not proved in general) *)
 Definition C06_full_consumer_exception_chain : Prop :=
   forall (sp : chain_spec) (k c : nat),
     valid_chain sp -> k < ch_N sp ->
@@ -349,7 +350,8 @@ Definition C06_full_consumer_exception_chain : Prop :=
                            (chain_main sp) (ch_N sp) c.
 
 (* the consumer closes the iterator after chunk k: all threads stop; the caller sees OutsideException through
-   Context.get_iter, a plain return of close() (GeneratorExit re-raised) on the processor's own iterator *)
+   Context.get_iter, a plain return of close() (GeneratorExit re-raised) on the processor's own iterator
+   (PROVED above without savers: C06_consumer_close_stops_all; with savers it is this Definition) *)
 Definition C06_full_consumer_close_stops_all : Prop :=
   forall (sp : chain_spec) (k c : nat),
     valid_chain sp -> k < ch_N sp ->
